@@ -4,13 +4,20 @@ open SseClient Drv
 
 /-! Line protocol for the `sseclient` model.
 
-`run|maxR|c0|statusDone|events|valid|conns`
-  events  `;`-separated `seq:terminal:codepoints`
+`run|maxR|c0|statusDone|events|valid|conns[|incl]`   (`incl`: the `include_internal` flag, also on `serve`, `live`)
+  events  `;`-separated `seq:terminal:codepoints[:I]`  (`I`: an InternalDispatchEvent)
   valid   `;`-separated code point lists accepted by the validator besides the log's payloads
   conns   `;`-separated `fault~hb~raw` with fault `n`, `r`, `d<N>`, `tc`, `tr<N>`, `s<code>`;
           hb comma-separated naturals; raw empty, `S<code>` or `B<closes>:<codepoints>`
   →  `res=… last=… out=seq@idx,… reqs=c,c,…`
 `serve|c|statusDone|events|hb`  →  `status=204` or `stream closes=b body=codepoints`
+`live|maxR|c0|events|valid|conns`  the log grows: conns as above with a fourth field `vis:sd`
+  (that connection sees the first `vis` events; `sd` = the handler's status is terminal by then)
+  →  as `run`
+`lines|eof|chunks`  chunks `;`-separated `c<codepoints>` (zero or more)
+  →  `n=<count> l<codepoints>;l<codepoints>…` what `_iter_sse_lines` yields
+`int|codepoints`  →  `int=<n>` or `int=error` (Python `int(text)`)
+`cursor|n`  →  `text=<codepoints> back=<n>` (`str(n)` and `int` of it)
 -/
 namespace Drv.SseClient
 
@@ -21,6 +28,11 @@ def parseEv? (s : String) : Option Ev :=
     let b ← parseBool? t
     let cs ← parseChars? p
     some { seq := n, payload := cs, terminal := b }
+  | [sq, t, p, "I"] => do
+    let n ← sq.toNat?
+    let b ← parseBool? t
+    let cs ← parseChars? p
+    some { seq := n, payload := cs, terminal := b, internal := true }
   | _ => none
 
 def parseList? (f : String → Option α) (s : String) : Option (List α) :=
@@ -56,6 +68,24 @@ def parseConn? (s : String) : Option Conn :=
     some { fault := f, hb := hb, raw := raw }
   | _ => none
 
+/-- `fault~hb~raw~vis:sd` -/
+def parseLiveConn? (es : List Ev) (incl : Bool) (s : String) : Option (Server × Conn) :=
+  match s.splitOn "~" with
+  | [f, hb, raw, snap] =>
+    match snap.splitOn ":" with
+    | [v, sd] => do
+      let f ← parseFault? f
+      let hb ← parseNats? hb
+      let raw ← parseRaw? raw
+      let v ← v.toNat?
+      let sd ← parseBool? sd
+      some ({ log := es.take v, statusDone := sd, inclInternal := incl }, { fault := f, hb := hb, raw := raw })
+    | _ => none
+  | _ => none
+
+def parseChunk? (s : String) : Option (List Char) :=
+  if s.startsWith "c" then parseChars? (s.drop 1).toString else none
+
 def showRes : Res → String
   | .done => "done" | .pending => "pending" | .more => "more"
   | .errConn => "conn" | .errTimeout => "timeout" | .errParse => "parse"
@@ -80,25 +110,62 @@ def parseMax? (s : String) : Option Nat :=
 def parseC0? (s : String) : Option Int :=
   if s == "D" then some Gen.SseClient.defaultAfterSequence else s.toInt?
 
-def step (_ : Unit) (line : String) : Unit × String :=
-  match line.splitOn "|" with
-  | ["run", maxR, c0, sd, evs, valid, conns] =>
-    match parseMax? maxR, parseC0? c0, parseBool? sd, parseList? parseEv? evs, parseList? parseChars? valid,
-          parseList? parseConn? conns with
-    | some m, some c, some d, some es, some vs, some cs =>
+/-- the run ops carry the real client's `include_internal` flag as an optional last field; without
+it (logs without internal events) the flag makes no difference and the model default is used -/
+def opRun (maxR c0 sd evs valid conns : String) (incl : Option Bool) : String :=
+  match parseMax? maxR, parseC0? c0, parseBool? sd, parseList? parseEv? evs, parseList? parseChars? valid,
+        parseList? parseConn? conns, incl with
+  | some m, some c, some d, some es, some vs, some cs, some i =>
+    let logP := es.map (·.payload)
+    let P : Params := { valid := fun d => logP.contains d || vs.contains d, brk := isBreak, maxR := m }
+    let (st, r) := run P { log := es, statusDone := d, inclInternal := i } { last := c } cs
+    s!"res={showRes r} last={st.last} out={",".intercalate (st.out.map (showItem logP vs))} " ++
+      s!"reqs={",".intercalate (st.reqs.map toString)}"
+  | _, _, _, _, _, _, _ => "bad-op"
+
+def opServe (c sd evs hb : String) (incl : Option Bool) : String :=
+  match c.toInt?, parseBool? sd, parseList? parseEv? evs, parseNats? hb, incl with
+  | some c, some d, some es, some hb, some i =>
+    match ({ log := es, statusDone := d, inclInternal := i } : Server).serve c hb with
+    | .status code => s!"status={code}"
+    | .stream body cl => s!"stream closes={if cl then 1 else 0} body={showChars body}"
+  | _, _, _, _, _ => "bad-op"
+
+def opLive (maxR c0 evs valid conns : String) (incl : Option Bool) : String :=
+  match parseMax? maxR, parseC0? c0, parseList? parseEv? evs, parseList? parseChars? valid, incl with
+  | some m, some c, some es, some vs, some i =>
+    match parseList? (parseLiveConn? es i) conns with
+    | some script =>
       let logP := es.map (·.payload)
       let P : Params := { valid := fun d => logP.contains d || vs.contains d, brk := isBreak, maxR := m }
-      let (st, r) := run P { log := es, statusDone := d } { last := c } cs
-      ((), s!"res={showRes r} last={st.last} out={",".intercalate (st.out.map (showItem logP vs))} " ++
-           s!"reqs={",".intercalate (st.reqs.map toString)}")
-    | _, _, _, _, _, _ => ((), "bad-op")
-  | ["serve", c, sd, evs, hb] =>
-    match c.toInt?, parseBool? sd, parseList? parseEv? evs, parseNats? hb with
-    | some c, some d, some es, some hb =>
-      match ({ log := es, statusDone := d } : Server).serve c hb with
-      | .status code => ((), s!"status={code}")
-      | .stream body cl => ((), s!"stream closes={if cl then 1 else 0} body={showChars body}")
-    | _, _, _, _ => ((), "bad-op")
+      let (st, r) := runLive P { last := c } script
+      s!"res={showRes r} last={st.last} out={",".intercalate (st.out.map (showItem logP vs))} " ++
+        s!"reqs={",".intercalate (st.reqs.map toString)}"
+    | none => "bad-op"
+  | _, _, _, _, _ => "bad-op"
+
+def step (_ : Unit) (line : String) : Unit × String :=
+  match line.splitOn "|" with
+  | ["run", maxR, c0, sd, evs, valid, conns] => ((), opRun maxR c0 sd evs valid conns (some true))
+  | ["run", maxR, c0, sd, evs, valid, conns, incl] => ((), opRun maxR c0 sd evs valid conns (parseBool? incl))
+  | ["serve", c, sd, evs, hb] => ((), opServe c sd evs hb (some true))
+  | ["serve", c, sd, evs, hb, incl] => ((), opServe c sd evs hb (parseBool? incl))
+  | ["live", maxR, c0, evs, valid, conns] => ((), opLive maxR c0 evs valid conns (some true))
+  | ["live", maxR, c0, evs, valid, conns, incl] => ((), opLive maxR c0 evs valid conns (parseBool? incl))
+  | ["lines", eof, chunks] =>
+    match parseBool? eof, parseList? parseChunk? chunks with
+    | some e, some cs =>
+      let ls := chunkedLines isBreak e cs
+      ((), s!"n={ls.length} {";".intercalate (ls.map fun l => "l" ++ showChars l)}")
+    | _, _ => ((), "bad-op")
+  | ["int", t] =>
+    match parseChars? t with
+    | some cs => ((), match pyInt? cs with | some n => s!"int={n}" | none => "int=error")
+    | none => ((), "bad-op")
+  | ["cursor", n] =>
+    match n.toInt? with
+    | some n => ((), s!"text={showChars (pyStr n)} back={match pyInt? (pyStr n) with | some m => toString m | none => "error"}")
+    | none => ((), "bad-op")
   | _ => ((), "bad-op")
 
 end Drv.SseClient
